@@ -245,6 +245,22 @@ theorem fitLoop_prefix (extH : Str → Rat) (height : Rat) :
     · exact List.nil_prefix
     · simpa using ih _ _
 
+/-- if the loop did not break, every line was rendered -/
+theorem fitLoop_complete (extH : Str → Rat) (height : Rat) :
+    ∀ (lines : List Str) (th : Rat) (prev : Option Str),
+      (fitLoop extH height th prev lines).2 = none → (fitLoop extH height th prev lines).1 = lines := by
+  intro lines
+  induction lines with
+  | nil => intro _ _ _; simp [fitLoop]
+  | cons l ls ih =>
+    intro th prev h
+    unfold fitLoop at h ⊢
+    split
+    · rename_i hgt; simp [hgt] at h
+    · rename_i hgt
+      simp only [hgt, if_false] at h
+      simp [ih _ _ h]
+
 /-- if the loop broke, the overflow line is the last rendered line, or the first input line
 when nothing was rendered -/
 theorem fitLoop_overflow (extH : Str → Rat) (height : Rat) :
